@@ -1,6 +1,8 @@
 package main
 
 import (
+	"go/token"
+	"go/types"
 	"strings"
 
 	"golang.org/x/tools/go/ssa"
@@ -9,13 +11,13 @@ import (
 func init() { register("C15", checkC15) }
 
 const (
-	kCC      = "hs/internal/proto/clientpb.CommandCache."
-	kCCDup   = "(*hs/internal/proto/clientpb.CommandCache).isDuplicate(p0, "
-	kCCFull  = "(*hs/internal/proto/clientpb.CommandCache).hasFullBatch(p0)"
-	kCCSig   = "(*hs/internal/proto/clientpb.CommandCache).signalReady("
-	kCCTry   = "(*hs/internal/proto/clientpb.CommandCache).tryExtractBatch(p0)"
-	kCmdSeq  = "(*hs/internal/proto/clientpb.Command).GetSequenceNumber("
-	kCmdCli  = "(*hs/internal/proto/clientpb.Command).GetClientID("
+	kCC        = "hs/internal/proto/clientpb.CommandCache."
+	kCCDup     = "(*hs/internal/proto/clientpb.CommandCache).isDuplicate(p0, "
+	kCCFull    = "(*hs/internal/proto/clientpb.CommandCache).hasFullBatch(p0)"
+	kCCSig     = "(*hs/internal/proto/clientpb.CommandCache).signalReady("
+	kCCTry     = "(*hs/internal/proto/clientpb.CommandCache).tryExtractBatch(p0)"
+	kCmdSeq    = "(*hs/internal/proto/clientpb.Command).GetSequenceNumber("
+	kCmdCli    = "(*hs/internal/proto/clientpb.Command).GetClientID("
 	kBatchFull = "(*hs/internal/proto/clientpb.Batch).isFull("
 )
 
@@ -26,7 +28,7 @@ func checkC15(c *Ctx) {
 		"Add refuses duplicates; Proposed only raises a client's sequence number."
 	c.NotDec = "FIFO order of the extracted elements as a functional fact of the extraction loop; liveness under arbitrary goroutine scheduling beyond the no-lost-wake-up rule."
 	c.Expect("C15.1", 6)
-	c.Expect("C15.2", 3)
+	c.Expect("C15.2", 4)
 	c.Expect("C15.4", 4)
 
 	c.checkGuard("C15.1", guards["CommandCache"])
@@ -149,6 +151,58 @@ func checkC15(c *Ctx) {
 		c.Check(len(bad2) == 0, "C15.3", "Get: otherwise ends only with the context's error", p.FuncPos(get),
 			"every other return is (nil, ctx.Err())", join(bad2))
 	}
+	// C15.2 (c) Get: a consumed ready token obliges Get to examine the cache (under the rules above,
+	// which re-signal what it leaves behind) before it returns or blocks again
+	{
+		fl := NewFlow(p, get)
+		n := 0
+		eachInstr(get, func(in ssa.Instruction) {
+			sel, ok := in.(*ssa.Select)
+			if !ok {
+				return
+			}
+			for i, st := range sel.States {
+				if st.Dir != types.RecvOnly || fl.K.Key(st.Chan) != "p0->"+kCC+"ready" {
+					continue
+				}
+				// the edge taken when case i was chosen
+				for _, b := range get.Blocks {
+					iff, ok := b.Instrs[len(b.Instrs)-1].(*ssa.If)
+					if !ok {
+						continue
+					}
+					bo, ok := iff.Cond.(*ssa.BinOp)
+					if !ok || bo.Op != token.EQL {
+						continue
+					}
+					ex, ok := bo.X.(*ssa.Extract)
+					cst, ok2 := bo.Y.(*ssa.Const)
+					if !ok || !ok2 || ex.Tuple != sel || ex.Index != 0 || cst.Int64() != int64(i) {
+						continue
+					}
+					n++
+					isExam := func(x ssa.Instruction) bool {
+						call, ok := x.(ssa.CallInstruction)
+						return ok && (calleeIs(call.Common(), full) || calleeIs(call.Common(), try))
+					}
+					isEnd := func(x ssa.Instruction) bool {
+						switch x.(type) {
+						case *ssa.Return, *ssa.Select:
+							return true
+						}
+						return false
+					}
+					w := cfgSearch(fl, nil, b.Succs[0], isEnd, isExam, nil)
+					c.Check(w == nil, "C15.2", "Get: a consumed ready signal is followed by an examination of the cache", p.InstrPos(sel),
+						"every path from the receive on c.ready to a return or to the next wait calls hasFullBatch()/tryExtractBatch()",
+						"after taking the ready signal Get can reach "+posOf(p, w)+" without looking at the cache: the signal for a waiting full batch is lost and the next Get blocks although a batch is present")
+				}
+			}
+		})
+		if n == 0 {
+			c.Unresolved("C15.2", "Get: receive on c.ready", "select case not found")
+		}
+	}
 	// signalReady is non-blocking
 	{
 		blocking := false
@@ -241,7 +295,9 @@ func checkC15(c *Ctx) {
 		fl := NewFlow(p, isFull)
 		ok := false
 		for _, w := range trueEdges(fl) {
-			lenK := func(k string) bool { return strings.HasPrefix(k, "builtin len(p0->hs/internal/proto/clientpb.Batch.Commands)") }
+			lenK := func(k string) bool {
+				return strings.HasPrefix(k, "builtin len(p0->hs/internal/proto/clientpb.Batch.Commands)")
+			}
 			if hasCmp(w, "==", lenK, is("p1")) || hasCmp(w, "<=", is("p1"), lenK) {
 				ok = true
 			}
